@@ -869,7 +869,7 @@ def fmt_sites(body):
 TRANSPARENT = re.compile(
     r"(::deref$|::deref_mut$|::as_ref$|::as_mut$|::as_deref$|::borrow$|::clone$|::into$|::from$|::branch$|"
     r"::from_residual$|::unwrap$|::expect$|::unwrap_or_default$|::into_iter$|::iter$|::next$|::as_str$|"
-    r"::to_string$|::to_owned$|::into_owned$|::as_slice$|::pin$|::new_unchecked$|::as_mut_ptr$|"
+    r"::to_string$|::to_owned$|::into_owned$|::as_slice$|::as_bytes$|::pin$|::new_unchecked$|::as_mut_ptr$|"
     r"::into_future$|::must_use$|::map_err$|::ok_or_else$|::ok_or$|::copied$|::cloned$|::into_inner$|"
     r"::get_mut$|::boxed$|::unwrap_or$|::into_server_error$)"
 )
